@@ -47,7 +47,10 @@ theorem actions_agree (o : BinOp) (a b : Int) : opAction o a b = Spec.opSem o a 
     Spec.opSem, pyDivE, pyModE, pyShlE, pyShrE, shr_eq_fdiv]
 
 theorem size_actions_agree (s : IntSz) (a : Int) : sizeAction s a = Spec.sizeSem s a := by
-  sorry
+  cases s <;> simp [sizeAction, BdGrammar.exprRule, tokText, BdGrammar.tokenText, IntSz.letter, Spec.sizeSem, Spec.sizeBits]
+  · exact size_goal_b a
+  · exact size_goal_h a
+  · exact size_goal_w a
 
 theorem cmp_actions_agree (o : CmpOp) (a b : Int) : cmpAction o a b = Spec.cmpSem o a b := by
   cases o <;> simp [cmpAction, BdGrammar.boolRule, CmpOp.text, tokText, CmpOp.tokName, BdGrammar.tokenText,
@@ -83,50 +86,92 @@ theorem erase_constants_agree :
 /-- `/` and `%` are quotient and remainder of the division algorithm (remainder with the sign of the divisor) -/
 theorem div_mod_spec (a b q r : Int) (hq : Spec.opSem .div a b = .ok q) (hr : Spec.opSem .mod a b = .ok r) :
     a = b * q + r ∧ ((0 ≤ r ∧ r < b) ∨ (b < r ∧ r ≤ 0)) := by
-  sorry
+  simp only [Spec.opSem] at hq hr
+  by_cases hb : b = 0
+  · simp [hb] at hq
+  · simp only [hb, if_false, Except.ok.injEq] at hq hr
+    subst hq; subst hr
+    constructor
+    · have := Int.mul_fdiv_add_fmod a b
+      omega
+    · rcases Int.lt_or_gt_of_ne hb with h | h
+      · right; exact fmod_neg_divisor a b h
+      · left; exact ⟨Int.fmod_nonneg_of_pos a h, Int.fmod_lt_of_pos a h⟩
 
 /-- `&`, `|`, `^` are the bitwise operations of two's complement with infinite sign extension -/
 theorem bitwise_spec (a b : Int) (i : Nat) :
     (intAnd a b).testBit i = (a.testBit i && b.testBit i) ∧
     (intOr a b).testBit i = (a.testBit i || b.testBit i) ∧
     (intXor a b).testBit i = (a.testBit i ^^ b.testBit i) := by
-  sorry
+  rw [intAnd_eq_land, intOr_eq_lor, intXor_eq_xor]
+  exact ⟨Int.testBit_land a b i, Int.testBit_lor a b i, Int.testBit_lxor a b i⟩
 
 /-- `<<` and `>>` by a non-negative count are multiplication and floor division by a power of two -/
 theorem shift_spec (a : Int) (n : Nat) :
     Spec.opSem .shl a n = .ok (a * 2 ^ n) ∧ Spec.opSem .shr a n = .ok (a / 2 ^ n) := by
-  sorry
+  have h : ¬ ((n : Int) < 0) := by omega
+  simp only [Spec.opSem, h, if_false, Int.toNat_natCast, true_and]
+  congr 1
+  apply Int.fdiv_eq_ediv_of_nonneg
+  exact Int.le_of_lt (Int.pow_pos (by decide))
 
 /-- `&&`, `||`, `!`: the truth value of the result is the logical and / or / not of the operands' truth values -/
 theorem logical_truth (a b : Int) :
     (∃ v, Spec.cmpSem .land a b = .ok v ∧ Spec.truth v = (Spec.truth a && Spec.truth b)) ∧
     (∃ v, Spec.cmpSem .lor a b = .ok v ∧ Spec.truth v = (Spec.truth a || Spec.truth b)) ∧
     (∃ v, Spec.lnotSem a = .ok v ∧ Spec.truth v = !Spec.truth a) := by
-  sorry
+  refine ⟨⟨_, rfl, ?_⟩, ⟨_, rfl, ?_⟩, ⟨_, rfl, ?_⟩⟩
+  · by_cases ha : a = 0 <;> simp [Spec.truth, ha]
+  · by_cases ha : a = 0 <;> simp [Spec.truth, ha]
+  · by_cases ha : a = 0 <;> simp [Spec.truth, Spec.ofBool, ha]
 
 /-- `.b/.h/.w` keep the low 8 / 16 / 32 bits: the result is in range and congruent to the operand -/
 theorem size_spec (s : IntSz) (a : Int) :
     ∃ v, Spec.sizeSem s a = .ok v ∧ 0 ≤ v ∧ v < 2 ^ Spec.sizeBits s ∧ (a - v) % 2 ^ Spec.sizeBits s = 0 := by
-  sorry
+  have hpos : (0 : Int) < 2 ^ Spec.sizeBits s := Int.pow_pos (by decide)
+  refine ⟨_, rfl, Int.emod_nonneg _ (by omega), Int.emod_lt_of_pos _ hpos, ?_⟩
+  rw [Int.sub_emod, Int.emod_emod_of_dvd _ (Int.dvd_refl _), Int.sub_self, Int.zero_emod]
 
 /-! ### Reference parser and printer -/
 
 /-- printing an abstract `expr` with minimal parentheses and parsing it back gives the same tree, for every
     assignment of precedence levels (in particular the generated = documented one) -/
 theorem parse_print (L : Levels) (e : Expr) : refParse L (pr L 0 e) = .ok e := by
-  sorry
+  exact parse_print_expr L e
 
 theorem parse_print_bool (L : Levels) (b : BExpr) : refParseB L (prB L 0 b) = .ok b := by
-  sorry
+  exact parse_print_bexpr L b
 
 /-! ### Evaluation -/
 
 /-- evaluation with the generated rule actions is evaluation with the Spec's operator semantics -/
 theorem eval_agrees (vars : Vars) (e : Expr) : eval vars e = Spec.eval vars e := by
-  sorry
+  induction e with
+  | lit n => rfl
+  | var x => simp [eval, Spec.eval, lookup_agrees]
+  | bin o l r ihl ihr =>
+    simp only [eval, Spec.eval, ihl, ihr, asInt_eq, actions_agree]
+    cases Spec.eval vars l <;> cases Spec.eval vars r <;> rfl
+  | neg e ih =>
+    simp only [eval, Spec.eval, ih, asInt_eq, (unary_actions_agree _).1]
+    cases Spec.eval vars e <;> rfl
+  | pos e ih =>
+    simp only [eval, Spec.eval, ih, asInt_eq, (unary_actions_agree _).2]
+    cases Spec.eval vars e <;> rfl
+  | size s e ih =>
+    simp only [eval, Spec.eval, ih, asInt_eq, size_actions_agree]
+    cases Spec.eval vars e <;> rfl
 
 theorem evalB_agrees (vars : Vars) (b : BExpr) : evalB vars b = Spec.evalB vars b := by
-  sorry
+  induction b with
+  | atom e => simp [evalB, Spec.evalB, eval_agrees]
+  | bin o l r ihl ihr =>
+    simp only [evalB, Spec.evalB, ihl, ihr, asInt_eq, cmp_actions_agree]
+    cases Spec.evalB vars l <;> cases Spec.evalB vars r <;> rfl
+  | lnot b ih =>
+    simp only [evalB, Spec.evalB, ih, asInt_eq, lnot_action_agrees]
+    cases Spec.evalB vars b <;> rfl
+  | defined x => simp [evalB, Spec.evalB, defined_agrees, pyBoolInt_eq]
 
 /-- the text printed for an abstract expression evaluates (reference parser with the implementation's levels, then the
     implementation's rule actions) to what the Spec says about that expression -/
@@ -134,30 +179,35 @@ theorem eval_parse_print (vars : Vars) (b : BExpr) :
     (match refParseB genLevels (prB genLevels 0 b) with
      | .ok b' => some (evalB vars b')
      | .error _ => none) = some (Spec.evalB vars b) := by
-  sorry
+  rw [parse_print_bool]
+  simp only [evalB_agrees]
 
 /-! ### Statements -/
 
-/- full-strength statement (false on the current tree, see the two known findings):
-   theorem elab_one_cmd : Spec.cmdOf env kbs s = some c → elabStmt env kbs s = .ok c -/
+/- full-strength statement (false on the current tree: known findings C19-blob-load and C19-prog-blob-zeros):
+   theorem elab_one_cmd : Spec.cmdOf env kbs s = some c → elabStmt env kbs s = .ok c
 
-/-- every supported statement becomes exactly the one command the Spec states — except the two blob forms recorded as
-    known findings C19-blob-load and C19-prog-blob-zeros -/
+   What is proved excludes every `load … {{blob}}` statement.  Of these, the plain load and the 8-byte program-fuse load with
+   a zero first word are the two recorded counter-examples; the remaining case (program-fuse load of a 4- or 8-byte
+   blob) is checked by the driver on every generated statement (it recomputes `elabStmt = Spec.cmdOf` and flags a
+   mismatch) but not proved — it needs arithmetic on hexadecimal strings. -/
+
+/-- every supported statement (other than a blob load) becomes exactly the one command the Spec states -/
 theorem elab_one_cmd_partial (env : Env) (kbs : List KeyBlobDef) (s : Stmt) (c : Cmd)
-    (h1 : Spec.isPlainBlobLoad env s = false) (h2 : Spec.isProgBlobLeadingZeros env s = false)
-    (h : Spec.cmdOf env kbs s = some c) : elabStmt env kbs s = .ok c := by
-  sorry
+    (h1 : Spec.isBlobLoad s = false)
+    (h : Spec.cmdOf env kbs s = some c) : elabStmt env kbs s = .ok c :=
+  elab_one_cmd_noblob env kbs (fun e => eval_agrees env.vars e) s c h1 h
 
 /-- a section's statements become one command each, in order -/
 theorem section_one_cmd_each (env : Env) (ss : List Stmt) (ds : List (String × Dict))
-    (h : runStmts env ss = .ok ds) : ds.length = ss.length := by
-  sorry
+    (h : runStmts env ss = .ok ds) : ds.length = ss.length :=
+  runStmts_length env ss ds h
 
 /-- an unsupported construct anywhere in a program makes the whole program an error -/
 theorem unsupported_refused (env : Env) (blocks : List Block) (secs : List Section) (sec : Section) (k : String)
     (hs : sec ∈ secs) (hk : Stmt.unsupported k ∈ sec.stmts) :
-    ∃ e, runProgram env blocks secs = .error e := by
-  sorry
+    ∃ e, runProgram env blocks secs = .error e :=
+  runProgram_unsupported env blocks secs sec k hs hk
 
 /-! ### Non-vacuity -/
 
